@@ -37,11 +37,63 @@ def scenarios(rng, tier):
     return out
 
 
+def clamp_sites():
+    """The write sites of base_q_idx in rate_control_kernel, normalised: every one must have one of the three forms the clamp model
+    QPClamp.base_q_idx is written from (table lookup of the clamped picture_qp; the clipped `qindex` of the fixed-offset path; CLIP3
+    between the table entries of min/max QP). Returns (list of problems, dict of statistics)."""
+    import re
+    from lib import slicer
+    txt = slicer.slice_function('Source/Lib/Encoder/Codec/EbRateControlProcess.c', 'rate_control_kernel')
+    if txt is None:
+        return ['rate_control_kernel not found in EbRateControlProcess.c'], {}
+    norm = lambda e: re.sub(r'\((?:uint8_t|int32_t|uint32_t|int)\)', '', re.sub(r'\s+', '', e))
+    QMIN, QMAX = 'quantizer_to_qindex[scs_ptr->static_config.min_qp_allowed]', 'quantizer_to_qindex[scs_ptr->static_config.max_qp_allowed]'
+    allowed = {'quantizer_to_qindex[pcs_ptr->picture_qp]': 'lookup', 'qindex': 'fixed_offsets',
+               'CLIP3(%s,%s,(new_qindex))' % (QMIN, QMAX): 'clip_new_qindex'}
+    probs = []; stats = {}
+    sites = [(m.start(), norm(m.group(1))) for m in re.finditer(r'quantization_params\s*\.\s*base_q_idx\s*=(?!=)([^;]*);', txt)]
+    for pos, rhs in sites:
+        k = allowed.get(rhs)
+        if k is None:
+            probs.append('base_q_idx written with an unmodelled expression: ' + rhs[:160])
+        else:
+            stats[k] = stats.get(k, 0) + 1
+    if not sites:
+        probs.append('no write of base_q_idx found in rate_control_kernel')
+    # the fixed-offset path clips its index between the table entries of the configured bounds before it is written
+    m = re.search(r'\bqindex\s*=\s*CLIP3\s*\(([^;]*)\);', txt)
+    if 'fixed_offsets' in stats:
+        if not m or norm(m.group(1)) != '%s,%s,qindex' % (QMIN, QMAX):
+            probs.append('fixed-offset path: qindex is not clipped as CLIP3(q[min_qp_allowed], q[max_qp_allowed], qindex): ' + (norm(m.group(0))[:160] if m else 'no clip found'))
+        else:
+            wpos = [p_ for p_, r_ in sites if r_ == 'qindex'][0]
+            if not (m.start() < wpos):
+                probs.append('fixed-offset path: base_q_idx = qindex precedes the clip')
+    # every lookup site in a rate-controlled or on-the-fly path reads a picture_qp that was clipped to [min_qp_allowed, max_qp_allowed] by the
+    # statement before it (the first lookup, CQP without scaling, is the unclipped configured qp: CqpFixed of the model)
+    clip_qp = [(m_.start(), norm(m_.group(1))) for m_ in re.finditer(r'pcs_ptr->picture_qp\s*=([^;]*CLIP3[^;]*);', txt)]
+    for pos, e in clip_qp:
+        if not re.match(r'CLIP3\(scs_ptr->static_config\.min_qp_allowed,scs_ptr->static_config\.max_qp_allowed,', e):
+            probs.append('picture_qp clipped with other bounds than (min_qp_allowed, max_qp_allowed): ' + e[:160])
+    stats['picture_qp_clips'] = len(clip_qp)
+    last_lookup = max([p_ for p_, r_ in sites if r_ == 'quantizer_to_qindex[pcs_ptr->picture_qp]'], default=None)
+    if last_lookup is not None:
+        before = [p_ for p_, e in clip_qp if p_ < last_lookup]
+        between = txt[max(before):last_lookup] if before else None
+        if between is None or between.count(';') != 1 or not norm(between).endswith(',pcs_ptr->picture_qp);frm_hdr->'):
+            probs.append('the rate-controlled path no longer clips picture_qp in the statement before its table lookup')
+    stats['sites'] = len(sites)
+    return probs, stats
+
+
 def run(ck):
     ck.trust('Coq 8.16.1 kernel (clamp-stage theorem, monitor soundness)', 'base_q_idx as parsed by libSvtAv1Dec from the produced stream', 'extraction + obs/mon.ml', 'gcc')
     ck.prove('Properties_C18', extra_modules=['Monitors', 'QPClamp'])
     st, mt = source_table(), model_table()
     ck.obligation('quantizer_to_qindex in EbModeDecisionProcess.h equals the model table (64 entries)', st == mt and len(st) == 64, 'source %s... model %s...' % (st[:4], mt[:4]))
+    probs, cstats = clamp_sites()
+    ck.obligation('every write of base_q_idx in rate_control_kernel has one of the forms of the clamp model (QPClamp.base_q_idx): table lookup of the clipped picture_qp, clipped qindex, CLIP3 between the table entries of the QP bounds', not probs, '; '.join(probs[:3]))
+    ck.cov['clamp_sites'] = cstats
     ok, binp, stamp = e2e.driver(ck)
     okm, mbin, mlog = obs.build_obs('MON')
     ck.obligation('extract + build verified monitors', okm, mlog[-300:])
